@@ -217,6 +217,9 @@ pub struct MtuRule {
     pub initial: u16,
     /// min(own MtuDiscoveryConfig::upper_bound, peer max_udp_payload_size): no probe may exceed it
     pub probe_cap: usize,
+    /// the peer's max_udp_payload_size transport parameter: once the connection is established no datagram at all
+    /// may exceed it (0 = not checked)
+    pub peer_max_udp: usize,
 }
 
 pub struct NodeConn {
@@ -986,6 +989,24 @@ impl Sim {
                     let ps = obs.probe_sizes.clone();
                     self.fail("mtu-rose-without-probe", format!("node {node} conn {ch}: MTU estimate rose {last} -> {cur} but no probe of {cur} bytes was ever sent (probes sent: {ps:?}, initial_mtu {})", rules[node].initial));
                 }
+            }
+        }
+        // C13: client datagrams that carry an Initial packet are padded to at least 1200 bytes
+        if self.check_mtu && node == CLIENT {
+            let mut off = 0;
+            while off < t.size {
+                let len = seg.min(t.size - off);
+                if _buf.get(off).is_some_and(|b| b & 0xf0 == 0xc0) && len < 1200 {
+                    self.fail("initial-too-small", format!("client datagram of {len} bytes starts with an Initial packet (must be padded to 1200)"));
+                }
+                off += len;
+            }
+        }
+        // C13: no datagram above the peer's max_udp_payload_size once its transport parameters are known
+        if let Some(rules) = self.mtu_rules {
+            let cap = rules[node].peer_max_udp;
+            if cap > 0 && before.state == "established" && seg.min(t.size) > cap {
+                self.fail("mtu-datagram-exceeds-peer-max-udp-payload", format!("node {node} conn {ch}: datagram of {} bytes > the peer's max_udp_payload_size {cap} (current_mtu {}, path remote {})", seg.min(t.size), before.path.current_mtu, before.path.remote));
             }
         }
         // C13: every datagram <= current MTU except a single probe
